@@ -238,10 +238,11 @@ Qed.
 
 Lemma default_from_expr_total F e : hooks_total F -> is_panic (default_from_expr F e) = false.
 Proof.
-  intros H. induction e as [i l | i g IH | i p | i es | i k]; cbn [default_from_expr];
+  intros H. induction e as [i l | i g IH | i p | i es | i k | i nl]; cbn [default_from_expr];
     rewrite map_err_panic; try reflexivity.
   - now apply from_value_total.
   - exact IH.
+  - now apply from_value_total.
 Qed.
 
 Lemma default_from_meta_total F m :
@@ -314,10 +315,11 @@ Qed.
 Lemma int_from_expr_ok t e v : wf_ity t ->
   default_from_expr (int_fm t) e = Ok v -> exists z, v = VInt z /\ in_range t z.
 Proof.
-  intros W. induction e as [i l | i g IH | i p | i es | i k]; cbn [default_from_expr];
+  intros W. induction e as [i l | i g IH | i p | i es | i k | i nl]; cbn [default_from_expr];
     rewrite map_err_ok; try discriminate.
   - unfold from_value; cbn. intros H. destruct (int_from_value_ok t i l v W H) as (z & ? & ? & _). eauto.
   - exact IH.
+  - unfold from_value; cbn. intros H. destruct (int_from_value_ok t i nl v W H) as (z & ? & ? & _). eauto.
 Qed.
 
 (** No input whatsoever makes an integer target produce a value outside its range
